@@ -133,7 +133,7 @@ class Boc:
             result['size_bytes'] = data[4]
         else:
             raise BocError(f'unknown boc prefix: {data[:4]}')
-        if data_len - 5 < 1 + 5 * result['size_bytes']:
+        if data_len - 5 < 1 + 3 * result['size_bytes']:  # off_bytes and the cells, roots, absent counts
             raise BocError(f'can\'t parse boc header: {data[:4]}')
         offset_bytes = data[5]
         result['offset_bytes'] = offset_bytes
